@@ -115,7 +115,8 @@ def check(rep, model, tier):
 def window_tiling(rep, model):
     """the half-open search windows of adjacent half-waves share their boundary: [rise+a, decay+b) for a peak, [decay+b, rise+a) for a trough"""
     rep.rule('WINDOW-TILING', 'find_extrema searches a peak in raw[rise + a : decay + b] and the following trough in raw[decay + b : rise + a] with the same offsets a, b on the same '
-                              'crossing arrays: the windows tile the signal, so no sample can be reported both as a peak and as the neighbouring trough (strict alternation)')
+                              'crossing arrays: the windows tile the signal, so no sample can be reported both as a peak and as the neighbouring trough (strict alternation); and only '
+                              'half-waves closed by a crossing on both sides are searched (len(rise) - 1 peaks when the last crossing is a rise, else len(decay) - 1 troughs)')
     f = model.find('find_extrema')
     site = f'{f.path}:{f.node.lineno} find_extrema'
 
@@ -170,6 +171,25 @@ def window_tiling(rep, model):
             # conformance of the search as a whole is C02's FE-DEF
             rep.ok('WINDOW-TILING', inst, site, found='search windows are not in the slice-between-crossings form: not decided here (see C02 FE-DEF)', nontrivial=False)
             continue
+        # the number of half-waves searched: only those closed by a crossing on both sides (a window whose closing crossing does not exist is empty: argmax raises)
+        def extent_of(comp):
+            for x in T.walk(comp):
+                if x[0] == 'map' and x[1][0] == 'range' and x[1][1] == C(0) and any(y[0] == 'call' and y[1] in ('argmax', 'argmin') for y in T.walk(x[2])):
+                    return x[1][2]
+                if x[0] == 'arr' and x[1][0] == 'call' and x[1][1] in ('zeros', 'empty') and x[1][2] and any(y[0] == 'call' and y[1] in ('argmax', 'argmin') for y in T.walk(x)):
+                    return x[1][2][0]
+            return None
+        n_p, n_t = extent_of(impl[1][0]), extent_of(impl[1][1])
+        last_is_rise = T.cmp_('Gt', T.index(c02.RX, C(-1)), T.index(c02.DX, C(-1)))
+        want_p = T.gamma(last_is_rise, T.sub(T.length(c02.RX), C(1)), T.length(c02.RX))
+        want_t = T.gamma(last_is_rise, T.length(c02.DX), T.sub(T.length(c02.DX), C(1)))
+        if n_p is None or n_t is None:
+            rep.ok('WINDOW-TILING', inst + ':closed half-waves', site, found='number of searched half-waves not in a recognised form: not decided here (see C02 FE-DEF)', nontrivial=False)
+        elif (n_p, n_t) == (want_p, want_t):
+            rep.ok('WINDOW-TILING', inst + ':closed half-waves', site, found='peaks: one per rise that is followed by a decay; troughs: one per decay that is followed by a rise')
+        else:
+            rep.violation('WINDOW-TILING', inst + ':closed half-waves', site, expected=f'{T.show(want_p)} peaks and {T.show(want_t)} troughs (half-waves closed on both sides)',
+                          found=f'{T.brief(n_p, 100)} peaks and {T.brief(n_t, 100)} troughs: a half-wave without its closing crossing is searched over an empty window (argmax raises)')
         (plo, phi), (tlo, thi) = next(iter(win['peak'])), next(iter(win['trough']))
         ok = plo[0] == 'RX' and phi[0] == 'DX' and tlo == phi and thi == plo
         if ok:
